@@ -49,10 +49,6 @@ class ScalarField:
         self._coordinate_system = coordinate_system
 
     def __call__(self, point_: Point) -> Expr:
-        if not callable(self._point_function):
-            # stored value can be written in base scalars of the field coordinate system, eg C.x * C.y,
-            # field operators read it as a function of the point, so should applying the field
-            return _subs_with_point(self._point_function, self._coordinate_system, point_)
         # Point with general Point type is not checked against coordinate system.
         # It's up to user to make sure that field function works with general Point type.
         if (isinstance(point_, CartesianPoint) and
@@ -67,6 +63,10 @@ class ScalarField:
                 self._coordinate_system.coord_system_type != CoordinateSystem.System.CYLINDRICAL):
             raise ValueError(
                 f"Unsupported coordinate system for CylinderPoint: {self._coordinate_system}")
+        if not callable(self._point_function):
+            # stored value can be written in base scalars of the field coordinate system, eg C.x * C.y,
+            # field operators read it as a function of the point, so should applying the field
+            return _subs_with_point(self._point_function, self._coordinate_system, point_)
         return self._point_function(point_)
 
     @property
